@@ -201,6 +201,13 @@ def _order(chk, ctx) -> None:
            'players show in clockwise order starting with the last aggressor; players who are out or whose cards are all face up are skipped',
            got=f'queue={ok_q} rotated_by_last_aggressor={ok_rot} skipped={ok_drop}')
     si = ctx.sfi('showdown_index')
-    rets = {T.key(unversion(p.outcome[1])) for p in ctx.paths(si) if p.returned and not any(e.kind == 'exc' for e in p.events)}
-    want = {T.key(T.spec('self.showdown_indices[0] if self.showdown_indices else None'))}
-    chk.ob('C12.order', 'State.showdown_index', rets == want, si.loc, 'the next player to show is the head of the showdown queue', got=sorted(rets))
+    # (a conditional expression in a return is read as two returns)
+    queue = T.truthy(T.spec('self.showdown_indices'))
+    rets = set()
+    for p in ctx.paths(si):
+        if p.returned and not any(e.kind == 'exc' for e in p.events):
+            cs = [unversion(c) for c in p.conds()]
+            rets.add((T.key(unversion(p.outcome[1])), 'nonempty' if queue in cs else 'empty' if T.mk_not(queue) in cs else '?'))
+    want = {(T.key(T.spec('self.showdown_indices[0]')), 'nonempty'), (T.key(('const', None)), 'empty')}
+    whole = {(T.key(T.spec('self.showdown_indices[0] if self.showdown_indices else None')), '?')}
+    chk.ob('C12.order', 'State.showdown_index', rets in (want, whole), si.loc, 'the next player to show is the head of the showdown queue', got=sorted(rets))
